@@ -252,13 +252,18 @@ func RunC18Leak(ctx *core.Ctx) {
 			if c.bloom {
 				opts = append(opts, parquet.BloomFilters(parquet.SplitBlockFilter(10, "s"), parquet.SplitBlockFilter(10, "i")))
 			}
-			desc := fmt.Sprintf("leak|%+v|%s|rows=%d|seed-stream=c18/leak/%d", c, enc.Desc(), len(rows), idx)
+			form := c18RandForm(r, len(opts))
+			if idx%3 == 0 {
+				form = nil // the plain spelling: options, then WithEncryption
+			}
+			encCfg := enc.Config()
+			desc := fmt.Sprintf("leak|%+v|%s|rows=%d|seed-stream=c18/leak/%d|form=%v", c, enc.Desc(), len(rows), idx, form)
 			ctx.Case(desc, len(enc.ColKeys) > 0 && len(rows) > 3)
 			ctx.Hist("leak_path", c.path)
 			ctx.Hist("leak_codec", c.codec)
 			detail := map[string]any{"config": fmt.Sprintf("%+v", c), "encryption": enc.Desc(), "rows": len(rows), "rand_stream": fmt.Sprintf("c18/leak/%d", idx),
-				"row_type": "c18LeakRow (harness/props/c18_leak.go)"}
-			plain, perr := c18LeakWrite(rows, c.path, opts)
+				"row_type": "c18LeakRow (harness/props/c18_leak.go)", "option_form": form.String()}
+			plain, perr := c18LeakWrite(rows, c.path, form.build(opts, nil, nil))
 			if perr != nil {
 				ctx.Hist("leak_outcome", "twin-write-error "+c.path+" "+perr.Error())
 				return
@@ -276,7 +281,7 @@ func RunC18Leak(ctx *core.Ctx) {
 					}
 				}
 			}
-			data, err := c18LeakWrite(rows, c.path, append(opts, parquet.WithEncryption(enc.Config())))
+			data, err := c18LeakWrite(rows, c.path, form.build(opts, encCfg, nil))
 			if err != nil && strings.Contains(err.Error(), "not supported with encryption") {
 				ctx.Hist("leak_outcome", "writer-refuses "+c.path)
 				return
